@@ -225,14 +225,19 @@ NOT_APPLICABLE = {
 # clauses added after the first claim texts were written (see DESIGN.md §4 for the exact statements)
 EXTRA = {
     "C01": "Also decided: the two lowering iterations that are only correct back to front (elif fold, scope lookup) are "
-           "reversed (FOLDORDER).",
+           "reversed (FOLDORDER); each builtin / method arm of the four emit dispatchers can produce the Rust name of "
+           "its operation and not the name of the opposite one, helpers read under the constant flags they are called "
+           "with (BUILTINID); no binary operator in the anchored files has identical operands (EQOP, HIR scan).",
     "C17": "HOOKSELECT reads what the filters in front of the candidates' collect() consume (receiver, name, params, "
            "return_type); REWRITE follows the decision into a same-file helper.",
     "C03": "Also decided: a parser function that lexes a substring again receives a base offset or its result is rebased "
            "(SUBSPAN); the type tested by ensure_bool_condition, the span it blames and the compatibility flag belong to "
            "one expression (COHERENT); types_compatible never equates distinct nominal/generic heads (NOMINAL, decision table); checker "
            "context set on entry to a nested body is restored on exit (CTXSCOPE); two run-time names are related only by "
-           "equality or hash lookup, never by prefix/suffix/substring (NAMEEQ).",
+           "equality or hash lookup, never by prefix/suffix/substring (NAMEEQ); a binder and the body it scopes over are checked at the same "
+           "scope depth (SCOPEDEPTH, forward dataflow over enter/exit_scope with helper summaries); constant indices "
+           "into type-argument lists are 0 or 1 (TYARGIDX); the return type a body is checked against is resolved in "
+           "the second pass, not read back from the first-pass symbol table (PASS2TYPE).",
     "C05": "Index and slice normalisation are now decided semantically for ALL indices: relational abstract "
            "interpretation (rules/idxeval.py: linear forms over idx/len/end/step, polyhedra refined at every branch, "
            "Fourier-Motzkin decisions, two symbolic loop iterations) compares list_get, list_get_mut, "
@@ -244,13 +249,20 @@ EXTRA = {
     "C06": "Also decided: both operands of a binary const expression are evaluated on every path (OPERANDS); the const "
            "evaluator never folds //, %, /, ** with Rust's native operators (RAWARITH, with a detector self-check on "
            "the incan_core kernels); the table resolve_static_str_const reads is complete before the first resolution "
-           "(TWOPASS).",
-    "C07": "Also decided: no path in the compound-assignment arm avoids the policy call except over a not-numeric edge "
+           "(TWOPASS); every exit of the in-progress arm of eval_const_by_name reports the cycle; no binary operator "
+           "in the anchored files has identical operands (EQOP).",
+    "C07": "EQOP as in C04. Also decided: no path in the compound-assignment arm avoids the policy call except over a not-numeric edge "
            "(NOBYPASS); only the three syntactic classifiers call PowExponentKind::from_literal_info (EXPKIND).",
     "C08": "Also decided: the formatter lexes exactly the text it was given (SRCTEXT); a library byte escaper used by the "
            "Bytes arm is invertible by the byte lexer (model of std::ascii::escape_default); the Tuple arm writes the "
-           "singleton comma (TUPLE1).",
-    "C13": "Also decided: the escaped spelling never reaches a map/set lookup or a name comparison (ESCKEY).",
+           "singleton comma (TUPLE1); a printer function that consults a field of the node it prints consults it on "
+           "every path (EVERYPATH, 60+ function/field pairs, two reviewed exemptions); the String arm writes only the "
+           "constant double quote and the escaped payload (STRDELIM).",
+    "C13": "Also decided: the escaped spelling never reaches a map/set lookup, a crate-local lookup method or a name "
+           "comparison (ESCKEY).",
+    "C11": "Also decided (part of the span clause): every Span::new in the parser takes its ends from token spans; "
+           "nothing in the backward slice of its arguments measures decoded text (SPANSRC).",
+    "C04": "Also decided: no binary operator in the anchored files has identical operands (EQOP).",
     "C14": "Also decided: check_with_imports records the export list of every dependency, also an empty one (REGALL).",
     "C15": "Also decided: feature flags are read only after every scan_for_* has run (SCANORDER); a crate is recorded as "
            "already declared exactly on the paths that pushed its dependency line (both directions).",
